@@ -1365,6 +1365,12 @@ def gen_ldap(rng, tier):
                         any(x.swapcase() != x for x in v) and rng.random() < 0.5:
                     o2[k] = [x.swapcase() for x in v]
                     changed += 1
+                elif isinstance(v, list) and len(set(x for x in v if isinstance(x, str))) >= 2 and \
+                        all(isinstance(x, str) for x in v) and rng.random() < 0.3:
+                    # same number of values, one of them repeated: every new value is among the old ones, yet
+                    # the attribute changed
+                    o2[k] = [v[-1]] * len(v)
+                    changed += 1
             for k in sorted(o2):
                 v = o2[k]
                 if not k.startswith('_') and rng.random() < 0.15 and (
